@@ -204,7 +204,8 @@ def fam_c03(ctx):
     for i in range(n):
         S.append(rnd(ctx.seed * 100000 + i, nw=rng.choice([1, 2, 2, 3]), timeout=rng.choice([1, 2, 3]),
                      events=rng.choice([3, 6, 10, 16]), sigs=["TTIN", "TTOU", "HUP", "TTOU", "TTIN"],
-                     statuses=[0, 256, 256, 9, 15, 11] + ([768, 1024] if i % 5 == 0 else []),
+                     # exit codes, plain signals, signals with the core-dump bit (139, 134), real-time signals (34, 64), exit code 255
+                     statuses=[0, 256, 256, 9, 15, 11, 139, 134, 34, 64, 65280, 512] + ([768, 1024] if i % 5 == 0 else []),
                      window=rng.choice([0.0, 0.3, 0.6]), p_act=rng.choice([0.05, 0.12, 0.3]),
                      burst=rng.choice([0.05, 0.3])))
     return S
